@@ -7,8 +7,8 @@
 //! GROUP: event
 //! MODULE: sync::manual_reset_event::kani_verif
 //! TAGS: C01 C14 C17 C18
-//! N: quick=2 thorough=2
-//! UNWIND_EXTRA: 4
+//! N: quick=4 thorough=4
+//! UNWIND_EXTRA: 3
 //! KIND: harness (concrete queue shape, symbolic remaining state)
 //! BOUNDED: N wait futures; every queue shape enumerated
 use super::*;
